@@ -62,6 +62,36 @@ Qed.
 (** model inputs (never output by any block) keep their initial (identity) rows *)
 Theorem inputs_keep_identity_lemma blocks init x : (forall b, In b blocks -> ~ In x (c_outs E b)) -> accumulate blocks init x = init x.
 Proof. apply accumulate_untouched. Qed.
+
+(** UNIQUENESS: along a well-formed order the chain-rule equations plus the identity rows of the model inputs determine the
+    totals; hence the accumulation does not depend on which admissible order the sort produced. *)
+Lemma solutions_agree blocks : ordered blocks -> forall tot1 tot2 : nat -> E,
+  (forall b o, In b blocks -> In o (c_outs E b) -> tot1 o = esum (fun m => emul (c_J E b o m) (tot1 m)) (c_ins E b)) ->
+  (forall b o, In b blocks -> In o (c_outs E b) -> tot2 o = esum (fun m => emul (c_J E b o m) (tot2 m)) (c_ins E b)) ->
+  (forall x, (forall b, In b blocks -> ~ In x (c_outs E b)) -> tot1 x = tot2 x) ->
+  forall x, tot1 x = tot2 x.
+Proof.
+  induction 1 as [|b0 bs Hord IH Hread Hdisj]; intros tot1 tot2 H1 H2 Hout x.
+  - apply Hout. intros b [].
+  - apply IH.
+    + intros b o Hb Ho. apply H1; [right; assumption | assumption].
+    + intros b o Hb Ho. apply H2; [right; assumption | assumption].
+    + intros y Hy.
+      destruct (inb y (c_outs E b0)) eqn:Ey.
+      * apply inb_In in Ey. rewrite (H1 b0 y (or_introl eq_refl) Ey), (H2 b0 y (or_introl eq_refl) Ey).
+        apply esum_ext. intros m Hm. f_equal. apply Hout. intros b' Hb'. apply (Hread b' Hb' m Hm).
+      * apply Hout. intros b' [<-|Hb'] Hin; [apply inb_In in Hin; congruence | exact (Hy b' Hb' Hin)].
+Qed.
+
+Theorem order_independence_lemma bs1 bs2 : ordered bs1 -> ordered bs2 -> (forall b, In b bs1 <-> In b bs2) ->
+  forall init x, accumulate bs1 init x = accumulate bs2 init x.
+Proof.
+  intros O1 O2 Hperm init. apply (solutions_agree bs1 O1).
+  - intros b o Hb Ho. apply chain_rule_equations_lemma; assumption.
+  - intros b o Hb Ho. apply chain_rule_equations_lemma; [assumption | apply Hperm; assumption | assumption].
+  - intros x Hx. rewrite !inputs_keep_identity_lemma; [reflexivity | | assumption].
+    intros b Hb. apply Hx. apply Hperm; assumption.
+Qed.
 End ChainProofs.
 
 (** ---------- general equilibrium: identities in a NON-commutative ring with the inverse as a hypothesis ---------- *)
